@@ -7,6 +7,7 @@ package c13
 import (
 	"sort"
 	"strings"
+	"verif/internal/run"
 )
 
 func p(s string) Expr  { return Expr{K: "path", V: s} }
@@ -29,7 +30,7 @@ func (g *gen) enumerate() []Case {
 	}
 	for env := 0; env < nEnvs; env++ {
 		// every path on its own
-		for _, l := range [][]string{intPaths, floatPaths, stringPaths, boolPaths} {
+		for _, l := range [][]string{intPaths, floatPaths, stringPaths, boolPaths, boundaryPaths} {
 			for _, x := range l {
 				addE(env, p(x))
 			}
@@ -148,7 +149,7 @@ func (g *gen) enumerate() []Case {
 
 	// ---- literal spellings into untyped parameters: 2.0 / 10.0 / 1e3 / 0.0 / -3.0 are float64,
 	// 7 is int, in every position (direct call, call under an operator, pipe argument)
-	for env := 0; env < nEnvs; env++ {
+	for env := 0; env < run.Pick(1, nEnvs); env++ { // quick: environment 0
 		for _, l := range append(append([]string{}, wholeFloatLits...), "0.5", "7", "-3") {
 			lit := Expr{K: "float", V: l}
 			if !strings.ContainsAny(l, ".e") {
